@@ -60,6 +60,12 @@ func gen(t *rapid.T) Case {
 		l := rapid.OneOf(rapid.SampledFrom(special), rapid.IntRange(0, 64), rapid.IntRange(0, 600), rapid.SampledFrom(big)).Draw(t, "len")
 		c.Lens = append(c.Lens, l/es)
 	}
+	if rapid.IntRange(0, 199).Draw(t, "manyObjects") == 0 {
+		// more heap objects in one session than a 16-bit object index can number within one collection sequence
+		c.Dims, c.Chunk = []uint64{uint64(rapid.IntRange(65530, 70000).Draw(t, "manyN"))}, nil
+		c.Lens = []int{1, 2, 0, 3}
+		c.Extra = false
+	}
 	if rapid.IntRange(0, 149).Draw(t, "giant") == 0 {
 		// one element beyond 16 MiB among a few small ones (an element may be as large as the format's length field allows)
 		c.Dims, c.Chunk = []uint64{uint64(rapid.IntRange(1, 3).Draw(t, "giantN"))}, nil
@@ -106,6 +112,9 @@ func classify(c Case) (bool, []string) {
 	}
 	if n > 1000 {
 		labels = append(labels, "n>1000")
+	}
+	if n > 65535 {
+		labels = append(labels, "n>65535")
 	}
 	return vol > 4096 || huge || empty, labels
 }
